@@ -14,6 +14,10 @@ R17c indentation constants: one level is 4 characters (`% 4`, `+ 4`, `/ 4` use t
      and a node whose indentation is not a multiple of it is flagged (indent_error), never re-nested
      silently: every branch of the second loop that changes `parent_node` appends the node first or
      marks node.indent_error.
+R17d reference discipline: on no feasible path through the nesting loop (boolean locals and the node's indent_error flag are
+     tracked along each path) is the indentation reference - the local the next line's indentation is compared with - updated
+     after the current line has been flagged (flag true on entry, or set on the path): otherwise a second line with the same
+     invalid indentation compares equal and is attached without an error.
 Decides these shapes for all method texts; the nesting law of the if/elif chain is value-level.
 """
 from __future__ import annotations
@@ -130,6 +134,118 @@ def run(ctx) -> None:
         ctx.fail("R17a", pm_, lp.ast, "parse_method: every path through the nesting loop appends the node exactly once",
                  f"a path appends the node {cnt} times: " + " -> ".join(g.nodes[n].text()[:40] for n in p if g.nodes[n].kind == "test"),
                  [g.nodes[n] for n in p])
+    # ---- R17d: a line flagged with an indentation error never becomes the reference the next line is compared with
+    ctx.rule("R17d", "a mis-indented line does not become the indentation reference")
+    # the reference local: compared with <node>.position.character in the loop's tests
+    refs = set()
+    for n_ in g.nodes:
+        if n_.kind == "test":
+            for c_ in ast.walk(n_.ast):
+                if isinstance(c_, ast.Compare):
+                    sides = [c_.left] + list(c_.comparators)
+                    if any(norm(x) == f"{node_var}.position.character" for x in sides):
+                        for x in sides:
+                            # the reference is compared as a plain local (possibly +/- a constant), not through an attribute
+                            if isinstance(x, ast.BinOp) and isinstance(x.right, ast.Constant):
+                                x = x.left
+                            if isinstance(x, ast.Name) and x.id != node_var:
+                                refs.add(x.id)
+    ref_writes = {n_.id: t.id for n_ in g.nodes if n_.kind == "stmt" and isinstance(n_.ast, ast.Assign)
+                  for t in n_.ast.targets if isinstance(t, ast.Name) and t.id in refs}
+    if not ref_writes:
+        raise AnchorError("parse_method: the indentation reference (local compared with <node>.position.character) is never updated")
+    FLAG = f"{node_var}.indent_error"
+
+    def edge_label(a, b):
+        labs = [l for d, l in g.succ[a] if d == b]
+        return labs[0] if labs else ""
+
+    def ev(e, env, alias):
+        """(value | None, is the flag itself)"""
+        if isinstance(e, ast.UnaryOp) and isinstance(e.op, ast.Not):
+            v, fl = ev(e.operand, env, alias)
+            return (None if v is None else (not v)), False
+        if isinstance(e, ast.Name):
+            return env.get(e.id), alias.get(e.id) == "flag"
+        if norm(e) == FLAG:
+            return env.get(FLAG), True
+        if isinstance(e, ast.BoolOp):
+            vals = [ev(x, env, alias)[0] for x in e.values]
+            if isinstance(e.op, ast.And):
+                return (False if any(v is False for v in vals) else (True if all(v is True for v in vals) else None)), False
+            return (True if any(v is True for v in vals) else (False if all(v is False for v in vals) else None)), False
+        return None, False
+
+    def learn(e, outcome, env, alias):
+        """facts established by test e having the given outcome"""
+        if isinstance(e, ast.UnaryOp) and isinstance(e.op, ast.Not):
+            learn(e.operand, not outcome, env, alias)
+        elif isinstance(e, ast.Name):
+            env[e.id] = outcome
+            if alias.get(e.id) == "flag":
+                env[FLAG] = outcome
+        elif norm(e) == FLAG:
+            env[FLAG] = outcome
+        elif isinstance(e, ast.BoolOp):
+            if isinstance(e.op, ast.And) and outcome:
+                for x in e.values:
+                    learn(x, True, env, alias)
+            if isinstance(e.op, ast.Or) and not outcome:
+                for x in e.values:
+                    learn(x, False, env, alias)
+    witness = None
+    n_flag_paths = 0
+    for p in paths:
+        env, alias = {}, {}
+        feasible, flagged, bad_at = True, False, None
+        seq = (lp.id,) + tuple(p)
+        for i_, nid in enumerate(seq[1:], start=1):
+            nd = g.nodes[nid]
+            prev = g.nodes[seq[i_ - 1]]
+            if prev.kind == "test":
+                lab = edge_label(prev.id, nid)
+                if lab in ("T", "F"):
+                    v, _ = ev(prev.ast, env, alias)
+                    if v is not None and v != (lab == "T"):
+                        feasible = False
+                        break
+                    learn(prev.ast, lab == "T", env, alias)
+            if env.get(FLAG):
+                flagged = True
+            if nd.kind == "stmt" and isinstance(nd.ast, ast.Assign):
+                for t in nd.ast.targets:
+                    if isinstance(t, ast.Name):
+                        if isinstance(nd.ast.value, ast.Constant) and isinstance(nd.ast.value.value, bool):
+                            env[t.id] = nd.ast.value.value
+                            alias.pop(t.id, None)
+                        elif norm(nd.ast.value) == FLAG:
+                            alias[t.id] = "flag"
+                            if FLAG in env:
+                                env[t.id] = env[FLAG]
+                            else:
+                                env.pop(t.id, None)
+                        else:
+                            env.pop(t.id, None)
+                            alias.pop(t.id, None)
+                    elif norm(t) == FLAG and isinstance(nd.ast.value, ast.Constant) and nd.ast.value.value is True:
+                        env[FLAG] = True
+                        flagged = True
+                if nid in ref_writes and flagged and bad_at is None:
+                    bad_at = nd
+        if feasible and flagged:
+            n_flag_paths += 1
+        if feasible and bad_at is not None and witness is None:
+            witness = (bad_at, p)
+    if n_flag_paths == 0:
+        raise AnchorError("parse_method: no path through the nesting loop flags an indentation error (rule would pass vacuously)")
+    inst = f"parse_method: `{sorted(set(ref_writes.values()))[0]}` is not advanced by a line flagged with an indentation error ({n_flag_paths} flagging paths)"
+    if witness is None:
+        ctx.ok("R17d", inst)
+    else:
+        bad_at, p = witness
+        ctx.fail("R17d", pm_, bad_at.ast, inst.split(" (")[0], "a line that was just flagged as mis-indented becomes the reference for the next line: a "
+                 "following line with the same invalid indentation is compared equal, attached without an error and silently "
+                 "re-nested", [g.nodes[n] for n in p])
     # ids
     for fq in (f"{PARSER}:PcodeParser._parse_line", f"{PARSER}:PcodeParser._create_node"):
         f = prog.func(fq)
